@@ -33,6 +33,7 @@ def run(tier, seed, replay=None):
     if not binary:
         return chk.finish(rule='harness build failed')
     scripts = gen(chk, tier, zoo, paths)
+    scripts = maybe_replay(chk, replay, scripts, zoo, paths)
     traces = run_histories(chk, binary, [{k: v for k, v in s.items() if not k.startswith('_')} for s in scripts])
     nfind = collections.Counter()
     for sc in scripts:
